@@ -7,6 +7,8 @@
 package zzverif
 
 import (
+	"reflect"
+	"unsafe"
 	"encoding/json"
 	"fmt"
 	"os"
@@ -196,6 +198,12 @@ func ByteIn(c byte, spec string) bool {
 		}
 	}
 	return false
+}
+
+// Field reads a (possibly unexported) struct field through a pointer.
+func Field(ptr any, name string) any {
+	f := reflect.ValueOf(ptr).Elem().FieldByName(name)
+	return reflect.NewAt(f.Type(), unsafe.Pointer(f.UnsafeAddr())).Elem().Interface()
 }
 
 func PermuteMaps(on bool) {}
